@@ -523,6 +523,7 @@ func c12Gate(r *Run, p *Peer) {
 		return
 	}
 	states := []connectivity.State{connectivity.Ready, connectivity.Idle, connectivity.Connecting, connectivity.TransientFailure, connectivity.Shutdown}
+	everAccepted := false
 	for i := 0; i < 3+r.Ch.Choose(5, "nattempts"); i++ {
 		st := states[r.Ch.Choose(len(states), "dpstate")]
 		r.W.Bess.State = st
@@ -531,6 +532,15 @@ func c12Gate(r *Run, p *Peer) {
 		}
 		// the state may flip while the request is in flight: what counts is the state when it is processed
 		flip := r.Ch.Choose(4, "flip") == 1
+		// the peer's Recovery Time Stamp may have moved on (it restarted) or back (its
+		// clock was set back): acceptance depends on the datapath alone
+		switch r.Ch.Choose(5, "ts-shift") {
+		case 1:
+			p.TS = p.TS.Add(time.Duration(1+r.Ch.Choose(3600, "ts-fwd")) * time.Second)
+		case 2:
+			p.TS = p.TS.Add(-time.Duration(1+r.Ch.Choose(3600, "ts-back")) * time.Second)
+			r.Probe("association-setup-with-older-recovery-time-stamp")
+		}
 		m := p.AssocSetupMsg()
 		p.SendMsg(m)
 		if flip {
@@ -563,6 +573,20 @@ func c12Gate(r *Run, p *Peer) {
 		}
 		if accepted {
 			r.Accepted++
+			everAccepted = true
+		} else if !everAccepted && r.Ch.Choose(2, "establish-after-refusal") == 1 {
+			// the set-up was refused, so there is no association: a Session
+			// Establishment sent now - the datapath is up again - must be refused too
+			r.W.Bess.State = connectivity.Ready
+			g := NewGen(r)
+			g.PlainQER = true
+			res := p.Establish(g.Session(p, SessShape{}))
+			r.Op("Session Establishment after the refused Association Setup (datapath up again) -> accepted=%v cause=%d", res.Accepted, res.Cause)
+			r.Skel(fmt.Sprintf("est-after-refused-setup:%v", res.Accepted))
+			if res.Accepted {
+				r.Violate("C12", "association-gate:refused-setup-left-an-association", "the Association Setup Request was refused (datapath %v) but a Session Establishment Request sent afterwards was accepted: the refused set-up had created the association", st)
+				return
+			}
 		}
 		if ar.UPFunctionFeatures == nil {
 			r.Violate("C12", "features-missing", "Association Setup Response without UP Function Features (cause %d)", c)
@@ -582,6 +606,11 @@ func c12Gate(r *Run, p *Peer) {
 func c12Initiated(r *Run, p *Peer, N int, tout time.Duration) {
 	// the peer answers the k-th transmission of the agent's Association Setup Request, or never
 	k := r.Ch.Choose(N+2, "k") // 0 = never
+	// crossing set-ups: when the agent's first transmission arrives the peer sends an
+	// Association Setup Request of its own (both ends were configured to initiate);
+	// the agent accepts it, its heartbeats start - and its own request is still
+	// answered by the k-th transmission only, which must end the retransmissions
+	cross := k >= 2 && r.Ch.Choose(3, "crossing-setups") == 1
 	var txAt []int64
 	var seqs []uint32
 	answered := false
@@ -595,6 +624,10 @@ func c12Initiated(r *Run, p *Peer, N int, tout time.Duration) {
 		if req, ok := m.(*message.AssociationSetupRequest); ok {
 			txAt = append(txAt, rec.At)
 			seqs = append(seqs, req.SequenceNumber)
+			if cross && len(txAt) == 1 {
+				p.SendMsg(p.AssocSetupMsg())
+				r.Probe("crossing-association-setups")
+			}
 			if k != 0 && len(txAt) == k {
 				answered = true
 				p.SendMsg(message.NewAssociationSetupResponse(req.SequenceNumber, ie.NewNodeID(p.NodeID, "", ""), ie.NewCause(ie.CauseRequestAccepted), ie.NewRecoveryTimeStamp(p.TS)))
